@@ -1,10 +1,10 @@
+import Mdsort.Proofs.Opts
 import Mdsort.Proofs.World
 import Mdsort.Proofs.WorldFrameMain
 import Mdsort.Proofs.WorldStdinExample
 import Mdsort.Proofs.EvalErrProp
 import Mdsort.Proofs.EvalAtt
 import Mdsort.Proofs.ExecStatus
-import Mdsort.Proofs.Opts
 
 /-!
 # C04 - the exit status tells the truth (MDA contract, error isolation)
